@@ -3,14 +3,14 @@
    OCaml's own types; nat, N, Z, positive stay extracted datatypes. *)
 From Coq Require Extraction.
 From Coq Require Import ExtrOcamlBasic.
-From VL Require Import Bytes Lit Lit2 Idl IdlDump Wire Json JsonDump Service Client Resolver Addr Lifecycle Ctxio Gen.
+From VL Require Import Bytes Lit Lit2 Idl IdlDump Wire Json JsonDump Service Client Resolver Addr Lifecycle Ctxio Gen Typed.
 Extraction "model.ml" idl_case idl_oracle parse dump_presult
   run_ops read_all split_frames frame
   marshal_value compact_raw valid json_parse_case json_compact_case json_struct_case sort_members
   decode_call enc_params encode_reply call_schema reply_schema iface_schema info_schema descr_schema
   address_schema resolver_info_schema s_method s_parameter lit_null
   serve_conn spec_conn run_system client_send client_receive dispatch_error helper_of
-  generate
+  generate decode_typed encode_typed has_type encode_value decode_struct
   c_init cstep outcomes
   l_init lstep get_obj cur_obj conn_st
   svc_init svc_bind svc_start svc_stop client_connect remove_file svc_parse client_parse activation_fd choose_listener atoi
